@@ -15,12 +15,17 @@ package pledge
 
 //@ # a juror approves a key at most once: approvals are append-only, an approval records the key,
 //@ # and a key that was approved before is always rejected
+//@ # ... and a key that is not above every member key the juror knows of is rejected (it may be
+//@ # a member's key): SpecJurorView(j) is what j.Candidates() returns during the call
+//@ spec func SpecJurorView(j *juror) node.Group
 //@ func (j *juror) verdict(ctx context.Context, req Request) (err error)
 //@   pragma opaque_func_values Candidates
+//@   pragma func_value_view Candidates=SpecJurorView
 //@   ensures  old(hasKey(j.approvals, req.Key)) ==> err != nil
 //@   ensures  err == nil ==> hasKey(j.approvals, req.Key) && !old(hasKey(j.approvals, req.Key))
 //@   ensures  len(j.approvals) >= old(len(j.approvals)) && (forall i int :: 0 <= i && i < old(len(j.approvals)) ==> j.approvals[i] == old(j.approvals[i]))
 //@   ensures  forall k node.Key :: hasKey(j.approvals, k) ==> old(hasKey(j.approvals, k)) || k == req.Key
+//@   ensures  err == nil ==> req.Key > SpecHighest(SpecJurorView(j))
 //@   modifies &j.approvals
 
 //@ # proposals never repeat: the first is highest+1, every retry is the previous + 1
